@@ -388,6 +388,56 @@ def limit_error_handlers(prop, tier, seed):
 
 
 extras.register(['C01', 'C16'], limit_error_handlers)
+
+
+def raw_builtin_entries(prop, tier, seed):
+    """C07 and the properties phrased over it: a table entry published as a Python builtin (len, str, min, max, str.lower, ...)
+    still denotes it - directly, or through a function / lambda that does nothing but forward its parameters to it.
+    (A re-implementation may be right, but then it needs a contract of its own: the stub of the builtin is all the
+    model knows about the entry.)"""
+    from contracts.published import PUBLISHED_RAW_BUILTINS
+    src = _src()
+    obs = []
+
+    def forwards(node, target):
+        if isinstance(node, (ast.Name, ast.Attribute)):
+            if ast.unparse(node) == target:
+                return True
+            g = src.globals['functions'].get(node.id) if isinstance(node, ast.Name) else None
+            if g and g[0] == 'func':
+                fn = src.funcs[g[1]].node
+                body = [st for st in fn.body if not (isinstance(st, ast.Expr) and isinstance(st.value, ast.Constant))]
+                if len(body) == 1 and isinstance(body[0], ast.Return) and body[0].value is not None:
+                    return call_forwards(body[0].value, fn.args, target)
+            return False
+        if isinstance(node, ast.Lambda):
+            return call_forwards(node.body, node.args, target)
+        return False
+
+    def call_forwards(call, fargs, target):
+        if not (isinstance(call, ast.Call) and ast.unparse(call.func) == target and not call.keywords):
+            return False
+        params = [a.arg for a in fargs.posonlyargs + fargs.args]
+        given = []
+        for a in call.args:
+            if isinstance(a, ast.Starred) and isinstance(a.value, ast.Name):
+                given.append('*' + a.value.id)
+            elif isinstance(a, ast.Name):
+                given.append(a.id)
+            else:
+                return False
+        want = params + (['*' + fargs.vararg.arg] if fargs.vararg else [])
+        return given == want and not fargs.kwonlyargs and not fargs.kwarg and not fargs.defaults
+
+    for name, target in sorted(PUBLISHED_RAW_BUILTINS.items()):
+        node = src.functions_table.get(name)
+        obs.append(ob('C07:FUNCTIONS[%r]:denotes-the-python-builtin-it-is-published-as' % name,
+                      ['C07', 'C08', 'C04', 'C13', 'C14', 'C02', 'C03'], node is not None and forwards(node, target),
+                      {'published': target, 'entry': ast.unparse(node) if node is not None else None}))
+    return obs, {}
+
+
+extras.register(['C07', 'C08', 'C04', 'C13', 'C14', 'C02', 'C03'], raw_builtin_entries)
 extras.register(['C02', 'C16'], confinement)
 extras.register(['C20', 'C15', 'C16', 'C06', 'C18'], lexer_facts)
 
